@@ -31,9 +31,10 @@ type stateless struct{ f func(args []string) string }
 func (s stateless) Exec(a []string) string {
 	first := s.f(append([]string(nil), a...))
 	if second := s.f(append([]string(nil), a...)); second != first {
-		return first + " NONDET:" + second
+		return parCheck(s.f, a, first+" NONDET:"+second)
 	}
-	return first
+	// … and must not depend on what runs at the same time (par.go: every 8th op re-runs the last 8 concurrently)
+	return parCheck(s.f, a, first)
 }
 func (s stateless) Reset()                 {}
 func (s stateless) Close()                 {}
